@@ -290,6 +290,14 @@ def check_transition(kind, attr, std, alias, state, op, bare=False):
         eq2 = outcome_eq(obj, build(kind, new_state))
         if eq2 != ("ok", True, False):
             fail("after being serialized the object no longer equals an unserialized twin", ("ok", True, False), eq2)
+    # the mapping is an ordered one: the same pairs inserted in another order are another content
+    # (they serialize differently), so they must not compare equal
+    if len(new_state) >= 2:
+        other_order = build(kind, tuple(reversed(new_state)))
+        if outcome_str(other_order) != s1:
+            eq3 = outcome_eq(obj, other_order)
+            if eq3 != ("ok", False, True):
+                fail("objects holding the same pairs in another insertion order (and serializing differently) compare equal", ("ok", False, True), eq3)
     # a different content must not compare equal
     if new_state != state:
         old = build(kind, state)
